@@ -3,7 +3,7 @@ from __future__ import annotations
 
 import ast
 
-from ..cfg import CFG, always_raises
+from ..cfg import CFG, EXIT, always_raises
 from ..core import AnalysisError, calls_in, call_name, dotted, unparse, walk_no_nested
 from ..match import canon
 from ..match import Field, alias_root, const_int, field_of, inline, pack_call, packed_bytes, single_assignments
@@ -98,6 +98,7 @@ def r2_tiling_loop(ctx: Ctx) -> None:
     # (1) a header is written only for a non-empty remainder
     kvar = None
     guarded = False
+    guard_edge = (0, "")
     tests_seen = []
     for nid, node in g.nodes.items():
         if node.kind != "test":
@@ -110,11 +111,18 @@ def r2_tiling_loop(ctx: Ctx) -> None:
         if g.dominated_by_edge(hn, (nid, lab)) or (g.dominated_by(hn, [nid]) and hn not in g.reachable([m for m, l in g.succ[nid] if l != lab], blocked=[nid])):
             kvar = cur
             guarded = True
+            guard_edge = (nid, lab)
     if not guarded:
         ctx.fail("write_block:guard", "a record header can be written when nothing remains of the block (an empty block, or the step after the last slice): "
                  f"a zero-length record is a run-length record to every reader; remainder tests found: {tests_seen}")
         return
     ctx.ok("write_block:guard", "headers are written only while something remains (no zero-length record, nothing for an empty block)")
+    # every slice gets its record: once something remains, no way back to the test or out of the function avoids the header
+    gn, glab = guard_edge
+    after = [m for m, l in g.succ[gn] if l == glab]
+    skipping = g.reachable(after, blocked=[hn], labels_excluded=["exc"])
+    ctx.check(gn not in skipping and EXIT not in skipping, "write_block:every-slice-recorded",
+              "while something remains every path writes a record header: a slice skipped under some condition (already written, equal to an earlier one, ...) is missing from the patch")
     init = [s for s in walk_no_nested(fn.node) if isinstance(s, ast.Assign) and unparse(s.targets[0]) == kvar and s not in list(walk_no_nested(lp))]
     ctx.check(len(init) == 1 and unparse(init[0].value) == "0", "write_block:cursor-init", "the cursor starts at 0")
     body_env = {}
